@@ -132,14 +132,16 @@ def euler_calls(mname):
 
 
 def run_call(thunk):
-    """-> ('checks', None) | ('ok', value) | ('other', repr)"""
+    """-> ('ok', value) | ('checks', message) | ('ValueError', message) | ('other', repr)
+    'checks' = a ValueError whose innermost xfab frame is xfab/checks.py.  Whether a ValueError raised elsewhere counts as a
+    rejection by the input checks is decided differentially (does it go away when the switch is off?), see check_call."""
     try:
         v = thunk()
         return "ok", v
     except ValueError as ex:
         if from_checks(ex):
-            return "checks", None
-        return "other", repr(ex)
+            return "checks", str(ex)
+        return "ValueError", str(ex)
     except Exception as ex:
         return "other", repr(ex)
 
@@ -227,25 +229,36 @@ def seq_alphabet():
 
 
 def check_call(r, state, key, fn, label, thunk, must_reject, ref_cache):
+    """ref_cache[key] = outcome with the switch on (the 'on' pass runs first)."""
     kind, val = run_call(thunk)
     r.evals += 1
     r.transitions += 1
     r.nontrivial.add("%s:%s:%s" % (state, fn, label))
     if state:
+        ref_cache[key] = (kind, val)
         if must_reject:
-            if kind != "checks":
-                r.violation(key + ":on:accepts-invalid", "switch on: invalid input must be rejected by the checks (ValueError from xfab.checks)", "checks", [kind, repr(val)[:200]])
+            if kind not in ("checks", "ValueError"):
+                r.violation(key + ":on:accepts-invalid", "switch on: an invalid input is rejected with ValueError", "ValueError", [kind, repr(val)[:200]])
         else:
             if kind == "checks":
-                r.violation(key + ":on:rejects-valid", "switch on: a valid input must not be rejected", "ok", kind)
-            elif kind == "ok":
-                ref_cache[key] = val
+                r.violation(key + ":on:rejects-valid", "switch on: a valid input must not be rejected", "ok", [kind, repr(val)[:200]])
     else:
+        on_kind, on_val = ref_cache.get(key, (None, None))
         if kind == "checks":
-            r.violation(key + ":off:raises", "switch off: the checks must not raise", "no checks error", kind)
-        if not must_reject and kind == "ok" and key in ref_cache:
-            if not same_value(val, ref_cache[key]):
-                r.violation(key + ":off:value", "switch off: same value as with the switch on", repr(ref_cache[key])[:300], repr(val)[:300])
+            r.violation(key + ":off:raises", "switch off: the input checks must not raise", "no checks error", [kind, val])
+        if must_reject and on_kind == "ValueError" and kind == "ValueError" and val == on_val:
+            # rejected when on, but by an error that is still raised when off: the rejection is not governed by the switch
+            r.violation(key + ":off:same-error", "switch off: the error that rejected the input when on is not raised", "no such error", [kind, val])
+        if not must_reject:
+            # an error unrelated to the input checks (e.g. u_to_rod at exactly 180 degrees) is the same with the switch on and off;
+            # an error that goes away when the switch is off IS an input check, wherever it is raised
+            if on_kind in ("ValueError", "other") and (kind, val) != (on_kind, on_val):
+                r.violation(key + ":on:rejects-valid", "switch on: a valid input must not be rejected (the error disappears when the switch is off)",
+                            [kind, repr(val)[:120]], [on_kind, repr(on_val)[:200]])
+            elif on_kind == "ok" and kind != "ok":
+                r.violation(key + ":off:fails", "switch off: a valid input returns the same value as with the switch on", "ok", [kind, repr(val)[:200]])
+            elif on_kind == "ok" and not same_value(val, on_val):
+                r.violation(key + ":off:value", "switch off: same value as with the switch on", repr(on_val)[:300], repr(val)[:300])
     # the call must not change the switch
     if impl_state()[0] != state:
         r.violation(key + ":switch-changed", "a call changed the switch", state, impl_state())
@@ -318,7 +331,7 @@ def check_case(case):
                             want_reject = s and label.startswith("edited")
                             r.evals += 1
                             r.transitions += 1
-                            if want_reject != (kind == "checks"):
+                            if (want_reject and kind not in ("checks", "ValueError")) or (not want_reject and kind == "checks"):
                                 r.violation("%s:q=%s:%s:reused-array:%s:state=%s" % (mname, q0, fname, label, s),
                                             "the checks look at the CURRENT contents of an array the caller has edited in place since an earlier call",
                                             "checks" if want_reject else "no checks error", kind)
@@ -334,7 +347,7 @@ def check_case(case):
                             for cs_ in (1, 7):
                                 kind, val = run_call(lambda: xfab.symmetry.Umis(M1, M2, cs_))
                                 r.evals += 1
-                                if bool(s) != (kind == "checks"):
+                                if bool(s) != (kind in ("checks", "ValueError")):
                                     r.violation("tools:q=%s:Umis:%s:cs%d:state=%s" % (q0, label, cs_, s), "Umis rejects two invalid orientation matrices even when their product is a rotation",
                                                 "checks" if s else "no checks error", kind)
             r.states = len(seen)
@@ -345,13 +358,13 @@ def check_case(case):
             first = case["first"]
             nseq = 0
             ref_cache = {}
-            # reference values with the switch on
-            goto(True)
-            for op in ops:
-                if op[0] == "call" and not op[3]:
-                    k, v = run_call(op[2])
-                    if k == "ok":
-                        ref_cache[op[1]] = v
+            # reference outcome of every call in each switch state (validated against the property in the BFS cases)
+            ref = {True: {}, False: {}}
+            for st_ in (True, False):
+                goto(st_)
+                for op in ops:
+                    if op[0] == "call":
+                        ref[st_][op[1]] = run_call(op[2])
             for length in range(1, L + 1):
                 for rest in itertools.product(range(len(ops)), repeat=length - 1):
                     seq = (first,) + rest
@@ -371,14 +384,18 @@ def check_case(case):
                         else:
                             kind, val = run_call(op[2])
                             r.evals += 1
-                            want = "checks" if (s and op[3]) else None
-                            bad = (want == "checks" and kind != "checks") or (want is None and kind == "checks")
-                            if not bad and not op[3] and kind == "ok" and op[1] in ref_cache and not same_value(val, ref_cache[op[1]]):
+                            wk, wv = ref[s][op[1]]
+                            bad = kind != wk or (kind == "ok" and not same_value(val, wv)) or (kind != "ok" and val != wv)
+                            # and the outcome in this state must be the right one: rejected iff on and invalid
+                            if s and op[3] and kind not in ("checks", "ValueError"):
+                                bad = True
+                            if (not s or not op[3]) and kind == "checks":
                                 bad = True
                             if impl_state()[0] != s:
                                 bad = True
                             if bad:
-                                r.violation(skey, "call outcome follows the two-state machine (history-independent)", [s, want or "no checks error"], [impl_state(), kind, repr(val)[:100]])
+                                r.violation(skey, "call outcome depends only on the current state of the switch (history-independent)", [s, wk, repr(wv)[:100]],
+                                            [impl_state(), kind, repr(val)[:100]])
                                 goto(s)
                         r.transitions += 1
             r.traces = nseq
